@@ -1,4 +1,4 @@
-import CollectionsC.Proofs.ArrayMem
+import CollectionsC.Proofs.ArrayUncond
 /-! # C01 — the dynamic array `CC_Array` behaves as an ideal sequence
 
 Statements only (helpers: `Proofs/Array*.lean`).  Concrete model `CC.Arr` (`Model/Array.lean`):
@@ -158,12 +158,45 @@ theorem new_history_refines (cfg : Cfg) (cap : Nat) (grow : Nat → Nat) (exGe :
     rw [htr] at o1
     exact ⟨t1, t2, t3, by rw [o1]; exact h6, by rw [t6]; exact h7, htr⟩
 
-/-- **no call of a history is blocked on an allocator that never refuses**, as long as the sizes
+/-- **from the constructor under an arbitrary schedule** (refusing constructors included): either the
+arguments are invalid (`CC_ERR_INVALID_CAPACITY`, ledger untouched), or one of the constructor's two
+allocations was refused (`CC_ERR_ALLOC`, no object, the triple's live-block count where it was — never on
+the C library's triple), or the constructor yields an array on which every history behaves like the ideal
+list starting empty (`new_history_refines`) -/
+theorem new_any_schedule (cfg : Cfg) (cap : Nat) (grow : Nat → Nat) (exGe : Nat → Bool) (m0 : Mem) (t : Triple)
+    (ops : List Op) (hsort : ∀ xs, (cfg.sortFn xs).length = xs.length) :
+    ((Arr.new cap grow exGe m0 t).1 = .errInvalidCapacity ∧ (Arr.new cap grow exGe m0 t).2.1 = none ∧
+      (Arr.new cap grow exGe m0 t).2.2 = m0 ∧
+      (cap = 0 ∨ exGe (Gen.CC_MAX_ELEMENTS / cap) = true ∨ Gen.CC_MAX_ELEMENTS / 8 < cap)) ∨
+    ((Arr.new cap grow exGe m0 t).1 = .errAlloc ∧ (Arr.new cap grow exGe m0 t).2.1 = none ∧
+      (Arr.alloc2 m0 t).1 = false ∧ t = .conf ∧
+      Arr.own t (Arr.new cap grow exGe m0 t).2.2 = Arr.own t m0 ∧ (Arr.new cap grow exGe m0 t).2.2.fault = m0.fault) ∨
+    (∃ a0, (Arr.new cap grow exGe m0 t).2.1 = some a0 ∧ (Arr.new cap grow exGe m0 t).1 = .ok ∧
+      (a0.run cfg ops (Arr.new cap grow exGe m0 t).2.2).1 =
+        (Spec.Seq.run cfg [] ops ((a0.run cfg ops (Arr.new cap grow exGe m0 t).2.2).1.map Out.blocked)).1 ∧
+      (a0.run cfg ops (Arr.new cap grow exGe m0 t).2.2).2.1.abs =
+        (Spec.Seq.run cfg [] ops ((a0.run cfg ops (Arr.new cap grow exGe m0 t).2.2).1.map Out.blocked)).2 ∧
+      (a0.run cfg ops (Arr.new cap grow exGe m0 t).2.2).2.1.Inv ∧
+      Arr.own t (a0.run cfg ops (Arr.new cap grow exGe m0 t).2.2).2.2 = Arr.own t m0 + 2 ∧
+      (a0.run cfg ops (Arr.new cap grow exGe m0 t).2.2).2.2.fault = m0.fault) := by
+  rcases Arr.new_spec cap grow exGe m0 t with ⟨e, h, hm, hv⟩ | ⟨e, h, _, ha, ho, hf⟩ | ⟨ok, _, r, h1, _⟩
+  · exact Or.inl ⟨e, h, hm, hv⟩
+  · refine Or.inr (Or.inl ⟨e, h, ha, ?_, ho, hf⟩)
+    cases t with
+    | conf => rfl
+    | libc => simp [Arr.alloc2, Mem.allocT] at ha
+  · obtain ⟨t1, t2, t3, t4, t5, _⟩ := new_history_refines cfg cap grow exGe m0 t r h1 ops hsort
+    exact Or.inr (Or.inr ⟨r, h1, ok, t1, t2, t3, t4, t5⟩)
+
+/-- **no call of a history is blocked on an allocator that never refuses** — the C library's triple
+(`cc_array_new`: whatever the refusal schedule of the configured allocators is) or a configured allocator
+with an empty refusal schedule —, as long as the sizes
 reached stay below the byte-size limit and the growth function does not overshoot it on the
 capacities at which a growth step can happen (those below `size + |ops|`).  This pins the `blocked`
 oracle of `history_refines` down: under these conditions it is `none` everywhere, and the array is
 observationally the ideal list (`history_ideal`). -/
-theorem history_unblocked (cfg : Cfg) (ops : List Op) (a : Arr) (m : Mem) (hinv : a.Inv) (hs : m.sched = [])
+theorem history_unblocked (cfg : Cfg) (ops : List Op) (a : Arr) (m : Mem) (hinv : a.Inv)
+    (hs : a.triple = .libc ∨ m.sched = [])
     (hsort : ∀ xs, (cfg.sortFn xs).length = xs.length)
     (hB : a.size + ops.length ≤ Gen.CC_MAX_ELEMENTS / 8)
     (hg : ∀ c, c < a.size + ops.length → a.grow c ≤ Gen.CC_MAX_ELEMENTS / 8) :
@@ -181,7 +214,9 @@ theorem history_unblocked (cfg : Cfg) (ops : List Op) (a : Arr) (m : Mem) (hinv 
       rcases hcases (a.step cfg op m).1 with h | h | h
       · exact h
       · have := b1 h
-        rw [(Arr.allocT_never_refuses m a.triple hs).1] at this; simp at this
+        rcases hs with hs | hs
+        · rw [hs] at this; simp [Mem.allocT] at this
+        · rw [(Arr.allocT_never_refuses m a.triple hs).1] at this; simp at this
       · obtain ⟨hl, hf⟩ := b2 h
         exfalso
         rcases hl with hl | hl
@@ -202,11 +237,13 @@ theorem history_unblocked (cfg : Cfg) (ops : List Op) (a : Arr) (m : Mem) (hinv 
     simp only [Arr.run, List.mem_cons] at ho
     rcases ho with ho | ho
     · rw [ho]; exact hnb
-    · exact ih (a.step cfg op m).2.1 (a.step cfg op m).2.2 s4 (Arr.step_sched_nil cfg a op m hinv hs)
+    · exact ih (a.step cfg op m).2.1 (a.step cfg op m).2.2 s4
+        (hs.elim (fun h => Or.inl (by rw [Arr.step_triple, h])) (fun h => Or.inr (Arr.step_sched_nil cfg a op m hinv h)))
         (by omega) (fun c hc => by rw [s3]; exact hg c (by omega)) o ho
 
 /-- consequently such a history is observationally the ideal list, with nothing else to say -/
-theorem history_ideal_of_nonrefusing (cfg : Cfg) (ops : List Op) (a : Arr) (m : Mem) (hinv : a.Inv) (hs : m.sched = [])
+theorem history_ideal_of_nonrefusing (cfg : Cfg) (ops : List Op) (a : Arr) (m : Mem) (hinv : a.Inv)
+    (hs : a.triple = .libc ∨ m.sched = [])
     (hsort : ∀ xs, (cfg.sortFn xs).length = xs.length)
     (hB : a.size + ops.length ≤ Gen.CC_MAX_ELEMENTS / 8)
     (hg : ∀ c, c < a.size + ops.length → a.grow c ≤ Gen.CC_MAX_ELEMENTS / 8) :
@@ -226,6 +263,59 @@ theorem not_atLimit (a : Arr) (hc : a.capacity < Gen.CC_MAX_ELEMENTS / 8)
     split at hl
     · split at hl <;> omega
     · omega
+
+/-- **when a call may be blocked** (one step): `CC_ERR_ALLOC` only when the array's own allocator refused
+the request — and, unless the call is `trim_capacity`, only on an exactly full array —;
+`CC_ERR_MAX_CAPACITY` only on an exactly full array at the capacity limit -/
+theorem step_blocked_pinned (cfg : Cfg) (a : Arr) (op : Op) (m : Mem) (hinv : a.Inv) :
+    ((a.step cfg op m).1.blocked = some .errAlloc →
+      (m.allocT a.triple).1 = false ∧ a.triple = .conf ∧ (op ≠ .trimCapacity → a.size = a.capacity)) ∧
+    ((a.step cfg op m).1.blocked = some .errMaxCapacity → a.AtLimit ∧ a.size = a.capacity) := by
+  obtain ⟨b1, b2⟩ := Arr.step_blocked cfg a op m hinv
+  refine ⟨fun h => ⟨b1 h, ?_, Arr.step_blocked_full cfg a op m hinv h⟩, b2⟩
+  have := b1 h
+  cases ht : a.triple with
+  | conf => rfl
+  | libc => rw [ht] at this; simp [Mem.allocT] at this
+
+/-- **when a call of a history may be blocked**, for every refusal schedule: split the history at any
+call; that call's report is the report of one step from the state the prefix leads to (which satisfies
+the invariant), so it is blocked with `CC_ERR_ALLOC` only if *that* state's allocator request was
+refused (and, for `add`/`add_at`, the array was exactly full), with `CC_ERR_MAX_CAPACITY` only if that
+state is full and at the capacity limit.  Together with `history_refines` this rules out a model that
+refuses at will. -/
+theorem history_blocked_pinned (cfg : Cfg) (pre post : List Op) (op : Op) (a : Arr) (m : Mem) (hinv : a.Inv)
+    (hsort : ∀ xs, (cfg.sortFn xs).length = xs.length) :
+    (a.run cfg (pre ++ op :: post) m).1 =
+      (a.run cfg pre m).1 ++ ((a.run cfg pre m).2.1.step cfg op (a.run cfg pre m).2.2).1 ::
+        (((a.run cfg pre m).2.1.step cfg op (a.run cfg pre m).2.2).2.1.run cfg post
+          ((a.run cfg pre m).2.1.step cfg op (a.run cfg pre m).2.2).2.2).1 ∧
+    (a.run cfg pre m).2.1.Inv ∧
+    (((a.run cfg pre m).2.1.step cfg op (a.run cfg pre m).2.2).1.blocked = some .errAlloc →
+      ((a.run cfg pre m).2.2.allocT (a.run cfg pre m).2.1.triple).1 = false ∧ (a.run cfg pre m).2.1.triple = .conf ∧
+      (op ≠ .trimCapacity → (a.run cfg pre m).2.1.size = (a.run cfg pre m).2.1.capacity)) ∧
+    (((a.run cfg pre m).2.1.step cfg op (a.run cfg pre m).2.2).1.blocked = some .errMaxCapacity →
+      (a.run cfg pre m).2.1.AtLimit ∧ (a.run cfg pre m).2.1.size = (a.run cfg pre m).2.1.capacity) := by
+  have hi := (history_refines cfg pre a m hinv hsort).2.2.1
+  obtain ⟨p1, p2⟩ := step_blocked_pinned cfg (a.run cfg pre m).2.1 op (a.run cfg pre m).2.2 hi
+  refine ⟨?_, hi, p1, p2⟩
+  rw [(Arr.run_append cfg pre (op :: post) a m).1]
+  rfl
+
+/-- **the ledger of one call and of a history, for either allocator triple**: the live-block count of
+the array's own triple is what it was, the other allocator's counters are untouched — so *both*
+`live` and `liveLibc` are balanced —, and the refusal counter counts exactly the calls that reported
+`CC_ERR_ALLOC` -/
+theorem history_ledger (cfg : Cfg) (ops : List Op) (a : Arr) (m : Mem) (hinv : a.Inv)
+    (hsort : ∀ xs, (cfg.sortFn xs).length = xs.length) :
+    Arr.own a.triple (a.run cfg ops m).2.2 = Arr.own a.triple m ∧ Arr.Foreign a.triple m (a.run cfg ops m).2.2 ∧
+    (a.run cfg ops m).2.2.live = m.live ∧ (a.run cfg ops m).2.2.liveLibc = m.liveLibc ∧
+    (a.run cfg ops m).2.2.nrefused =
+      m.nrefused + ((a.run cfg ops m).1.filter (fun o => decide (o.st = some .errAlloc))).length ∧
+    (a.run cfg ops m).2.1.triple = a.triple := by
+  obtain ⟨l1, l2, l3, l4⟩ := Arr.run_led cfg ops a m hinv hsort
+  obtain ⟨b1, b2⟩ := Arr.balanced_of_own_foreign l1 l2
+  exact ⟨l1, l2, b1, b2, l3, l4⟩
 
 /-! ## The property in its own vocabulary (facts about the ideal list) -/
 
